@@ -231,6 +231,24 @@ class Module:
             c = nxt
         return out
 
+    def method_x(self, cname: str, mname: str):
+        """(module, class name, function) of `mname` for class `cname`: own MRO first, then base classes imported from other
+        AEIC modules (`class Bada3FuelBurnModel(BaseFuelBurnModel)` with `BaseFuelBurnModel` in BADA/fuel_burn_base.py)"""
+        r = self.method(cname, mname)
+        if r is not None:
+            return self, r[0], r[1]
+        for c in self.mro(cname):
+            for b in c.bases:
+                if isinstance(b, ast.Name) and b.id not in self.classes and b.id in self.imports:
+                    m, orig = self.imports[b.id]
+                    rel = module_rel_of(m)
+                    if rel is not None:
+                        other = Module.get(rel)
+                        rr = other.method_x(orig, mname)
+                        if rr is not None:
+                            return rr
+        return None
+
     def method(self, cname: str, mname: str) -> tuple[str, ast.FunctionDef] | None:
         for c in self.mro(cname):
             for st in c.body:
@@ -1348,6 +1366,9 @@ class Sym:
                 return n.value == val
             return (isinstance(n, ast.UnaryOp) and isinstance(n.op, ast.USub) and isinstance(n.operand, ast.Constant)
                     and -n.operand.value == val)
+        if isinstance(sl, ast.Constant) and sl.value == 0:
+            r = self.real(v, 'stored element')
+            return self.lv_of_base(f'(Vec.setHead {X} {r.e})', d | r.deps)
         if not isinstance(sl, ast.Slice) or sl.step is not None:
             raise Untranslatable(f'array store {ast.unparse(sl)}')
         if is_c(sl.lower, 1) and sl.upper is None:
@@ -1712,6 +1733,12 @@ class Sym:
             if isinstance(c, Lv):
                 return self.pointwise(lambda cc, x, y: self.merge(cc, x, y, 'sel'), c, self._ev(args[1], env), self._ev(args[2], env))
             return self.merge(c, self._ev(args[1], env), self._ev(args[2], env), 'sel')
+        if npf in ('min', 'max', 'amin', 'amax') and len(args) == 1 and isinstance(args[0], (ast.Tuple, ast.List)) and not e.keywords:
+            rs = [self.real(self._ev(a, env), ast.unparse(a)) for a in args[0].elts]
+            acc = rs[0]
+            for r in rs[1:]:
+                acc = R(f'({"smin" if npf in ("min", "amin") else "smax"} {acc.e} {r.e})', acc.deps | r.deps)
+            return acc
         if npf == 'isclose' and len(args) == 2 and not e.keywords:
             a = self.real(self._ev(args[0], env), ast.unparse(args[0]))
             if isinstance(args[1], ast.Constant) and args[1].value == 0:
@@ -1836,6 +1863,9 @@ class Sym:
             r = self.mod.method(self.cls, ch[1])
             if r is not None:
                 return self.inline(self.mod, r[1], e, env, cls=self.cls, with_self=env.get('self'))
+            rx = self.mod.method_x(self.cls, ch[1])
+            if rx is not None:                        # inherited from a base class defined in another module
+                return self.inline(rx[0], rx[2], e, env, cls=rx[1], with_self=env.get('self'))
         if isinstance(f, ast.Attribute):
             try:
                 basev = self._ev(f.value, env)
@@ -2064,7 +2094,11 @@ class Sym:
                 env[t.id] = Ov(t.id)
                 return
             if t.id in self.spec.cut and (t.id not in self.params or isinstance(v, Uv)):
-                env[t.id] = R(lean_ident(t.id), frozenset([t.id]))   # from here on an input of the kernel
+                kinds = {(i if isinstance(i, str) else i[0]): ('real' if isinstance(i, str) else i[1]) for i in self.spec.inputs}
+                if kinds.get(t.id) == 'vec':
+                    env[t.id] = self.lv_of_base(lean_ident(t.id), frozenset([t.id]))
+                else:
+                    env[t.id] = R(lean_ident(t.id), frozenset([t.id]))   # from here on an input of the kernel
                 return
             env[t.id] = self.named(t.id, v)
             return
@@ -2146,7 +2180,7 @@ class Sym:
         if only_raise and not st.orelse:
             self.guards.append(ast.unparse(st.test))
             return False
-        if self.in_loop and not st.orelse and any(isinstance(b, (ast.Break, ast.Continue)) for b in st.body):
+        if self.in_loop and not st.orelse and any(isinstance(b, (ast.Break, ast.Continue, ast.Return)) for b in st.body):
             self.guards.append('loop exit: ' + ast.unparse(st.test))
             return False
         try:
@@ -2267,7 +2301,11 @@ class Sym:
             elif n in self.spec.cut_obj:
                 env[n] = Uv('loop-carried object (assigned later in the body)')
             elif n in inputs or n in self.spec.cut:
-                env[n] = R(lean_ident(n), frozenset([n]))
+                kinds = {(i if isinstance(i, str) else i[0]): ('real' if isinstance(i, str) else i[1]) for i in self.spec.inputs}
+                if kinds.get(n) == 'vec':
+                    env[n] = self.lv_of_base(lean_ident(n), frozenset([n]))
+                else:
+                    env[n] = R(lean_ident(n), frozenset([n]))
             else:
                 env[n] = Uv('loop-carried local')
         if isinstance(st, ast.For) and isinstance(st.target, ast.Name):
@@ -2496,6 +2534,23 @@ for _t in _HC_PARAMS:
     SYM_KERNELS.append(SymKernel('hcco_param_' + _t, 'emissions/ei/hcco.py', 'EI_HCCO', [], _t, pointwise=True))
 SYM_KERNELS.append(SymKernel('hcco_point', 'emissions/ei/hcco.py', 'EI_HCCO', ['ff_eval', 'Tamb', 'Pamb'] + list(_HC_PARAMS), 'return',
                              pointwise=True, cut=_HC_PARAMS))
+# one pass of the loop of each BADA iteration driver (C19), in loop mode with array state: the specific ground range the pass
+# computes is a cut (an array input); the inherited mass updates of fuel_burn_base.py are inlined across modules
+_DRV = dict(loop=True, cut=('specific_ground_range',))
+_DVIN = [('mass', 'vec'), ('specific_ground_range', 'vec'), ('segment_distance', 'vec')]
+_FB3 = 'Bada3FuelBurnModel.iterate_flight_simulation_'
+SYM_KERNELS.append(SymKernel('driver_const_initial_step', BADA, _FB3 + 'constant_initial_mass', _DVIN, 'mass', out='vec', **_DRV))
+SYM_KERNELS.append(SymKernel('driver_const_final_step', BADA, _FB3 + 'constant_final_mass', _DVIN, 'mass', out='vec', **_DRV))
+_FDF = _DVIN + ['mtow', 'oew', 'mpl', 'load_factor', 'reserve_fuel_fraction']
+_FDV = _DVIN + ['mtow', 'oew', 'mpl', 'load_factor', 'reserve_fuel']
+SYM_KERNELS.append(SymKernel('driver_fuel_dep_frac_step', BADA, _FB3 + 'fuel_burn_dependent_initial_mass_rf_fraction', _FDF, 'mass',
+                             out='vec', **_DRV))
+SYM_KERNELS.append(SymKernel('driver_fuel_dep_frac_takeoff', BADA, _FB3 + 'fuel_burn_dependent_initial_mass_rf_fraction', _FDF,
+                             'initial_mass', **_DRV))
+SYM_KERNELS.append(SymKernel('driver_fuel_dep_value_step', BADA, _FB3 + 'fuel_burn_dependent_initial_mass_rf_value', _FDV, 'mass',
+                             out='vec', **_DRV))
+SYM_KERNELS.append(SymKernel('driver_fuel_dep_value_takeoff', BADA, _FB3 + 'fuel_burn_dependent_initial_mass_rf_value', _FDV,
+                             'initial_mass', **_DRV))
 SYM_KERNELS.append(SymKernel('weather_ground_speed', 'weather.py', 'Weather.get_ground_speed',
                              ['true_airspeed', 'heading_rad', 'wind_u', 'wind_v'], 'return',
                              cut=('heading_rad', 'wind_u', 'wind_v')))
